@@ -45,6 +45,10 @@ IMS_DELTAS = [-86400, -3600, -3599, -1, 0, 1, 1800, 3599, 3600, 86400]
 MTIMES_EDGE = [0, 1, -1, 2, 0.5, -0.5, 1.5, 0.25, -1.75, 86399, 86400, -86400, -86401, 2 ** 31 - 1, 2 ** 31, 2 ** 31 + 0.5,
                2 ** 32 - 1, 2 ** 32, -2 ** 31, 946684799, 946684800, 951782400, 951868800, 4102444800, 4107542400,
                1_600_000_000.75]
+# If-Modified-Since header values that are NOT DATES AT ALL (class: a header that is present but names no instant):
+# empty, white space only, only the separator / a parameter of the obsolete `; length=` extension.  Such a header is no
+# condition: the answer is the one given without the header (200 / 206 / 416), never a 304 and never a 5xx.
+IMS_NONDATES = ['', ' ', '\t', '   ', ';', '; length=3', ' ;', ';;', ' ; length=5 ', ';length', '\t;\t']
 IMS_DELTAS_EDGE = [-86400, -2, -1, 0, 1, 2, 3600]
 
 
@@ -153,7 +157,7 @@ class C17(Check):
     level_note_extra = 'date parsing, stat and file stability are assumed'
     anchors = ['ombott/static_stream.py', 'ombott/common_helpers.py']
     rule = ('headers from the RFC 7233 grammar and near misses x file lengths 0..40 and around a patched small '
-            'streaming buffer x read schedules x If-Modified-Since before/equal/after mtime (three HTTP date formats, own zone offsets, junk) '
+            'streaming buffer x read schedules x If-Modified-Since before/equal/after mtime (three HTTP date formats, own zone offsets, junk, and headers that are present but no date at all: empty, blank, only separators = no condition) '
             'x BOUNDARY modification times (the epoch and its neighbours, before 1970, sub-second stamps on both sides of 0, '
             'the ends of the first day, 2^31 / 2^32 / -2^31, Y2K, the leap days 2000 / 2100; st_mtime_ns goes to the model, which truncates like int(st_mtime)) x modification times in winter / summer / the hours of the 2020 DST switches x the process '
             'running under TZ = UTC, Europe/Berlin, a POSIX rule string, America/New_York, Australia/Sydney, Asia/Kolkata, '
@@ -388,8 +392,11 @@ class C17(Check):
                 base, deltas = (math.floor(mtime), IMS_DELTAS_EDGE + [-math.floor(mtime)]) if edge else (mtime, IMS_DELTAS)
                 tz = rng.choice(TZS) if rng.random() < .6 else None
                 ims = None
-                k = rng.randrange(8)
-                if k < 5:       # a date around the modification time, in one of the three HTTP date formats
+                k = rng.randrange(9)
+                if k == 8:      # a header that is present but is no date at all (empty, blank, only separators)
+                    ims = rng.choice(IMS_NONDATES)
+                    st['ims_nondate'] = st.get('ims_nondate', 0) + 1
+                elif k < 5:       # a date around the modification time, in one of the three HTTP date formats
                     t = base + rng.choice(deltas)
                     ims = http_date(t, rng.choice([0, 0, 0, 1, 2]))
                     if rng.random() < .1:
@@ -405,11 +412,16 @@ class C17(Check):
                 fields = ims_fields(ims)
                 if fields is None:
                     continue
-                r, chunks = self._static(L, method, h, ims, mr, mtime, tz)
+                try:
+                    r, chunks = self._static(L, method, h, ims, mr, mtime, tz)
+                    sc = r.status_code
+                except Exception as e:      # only a faulty tree raises here: reported as a disagreement, not a crash
+                    r, chunks, sc = None, None, '!' + type(e).__name__
                 st['tz_' + str(tz)] = st.get('tz_' + str(tz), 0) + 1
-                sc = r.status_code
                 st[f'static_{sc}'] = st.get(f'static_{sc}', 0) + 1
-                if sc == 304:
+                if r is None:
+                    ans = sc
+                elif sc == 304:
                     ans = '304'
                 elif sc == 416:
                     ans = '416'
@@ -539,6 +551,36 @@ class C17(Check):
             return 'range-status', f'Range header answered {sc}'
         return None
 
+    def _oracle_nondate(self, L, method, h, ims, mr, wsgi):
+        """an If-Modified-Since header that is no date at all is no condition: the answer (status, entity headers, body)
+        is the one given without the header - called directly or through the application; never 304, never a failure"""
+        what = (f'{method} {"through the application" if wsgi else "static_file"}, Range {h!r}, {L} bytes, '
+                f'If-Modified-Since {ims!r} (not a date)')
+        key = 'wsgi-ims-nondate' if wsgi else 'ims-nondate'
+
+        def run(i):
+            if wsgi:
+                sc, hd, ch = self._wsgi(L, method, h, i, mr)
+                return [sc] + [self._hget(hd, k) for k in self.HDRS] + [b''.join(ch)]
+            r, chunks = self._static(L, method, h, i, mr)
+            body = chunks if isinstance(chunks, bytes) else b''.join(chunks or [])
+            return [r.status_code] + [str(r.headers.get(k)) for k in self.HDRS] + [body]
+        try:
+            base = run(None)
+        except Exception as e:
+            return key + '-baseline-raises', f'{what}: even without the header: {type(e).__name__}: {e}'
+        try:
+            got = run(ims)
+        except Exception as e:
+            return key + '-raises', f'{what}: {type(e).__name__}: {e}'
+        if got[0] >= 500:
+            return key + '-5xx', f'{what}: answered {got[0]}'
+        if got[0] == 304:
+            return key + '-304', f'{what}: answered 304'
+        if got != base:
+            return key + '-differs', f'{what}: {got[:-1]} / {len(got[-1])} bytes, without the header {base[:-1]} / {len(base[-1])} bytes'
+        return None
+
     def _oracle_head_pair(self, L, h, mr):
         """HEAD yields the same status and headers as GET (with or without a Range header), and no body"""
         g, _ = self._static(L, 'GET', h, None, mr)
@@ -633,6 +675,19 @@ class C17(Check):
                 if bad:
                     findings.append(Finding(f'C17:{bad[0]}', bad[1],
                                             dict(wsgi=True, len=c[0], range=c[1], ims=c[2], maxread=c[3], mtime=c[4], tz=c[5])))
+            # a present If-Modified-Since header that is no date at all x direct / through the application x GET / HEAD x Range
+            for ims in IMS_NONDATES:
+                for wsgi in (False, True):
+                    for m in ('GET', 'HEAD'):
+                        for L, h in ((5, None), (5, 'bytes=1-3'), (5, 'bytes=9-'), (0, None)):
+                            evals += 1
+                            try:
+                                bad = self._oracle_nondate(L, m, h, ims, 4, wsgi)
+                            except Exception as e:
+                                bad = ('exception', f'{type(e).__name__}: {e}')
+                            if bad:
+                                findings.append(Finding(f'C17:{bad[0]}', bad[1], dict(nondate=True, len=L, method=m, range=h,
+                                                                                   ims=ims, maxread=4, wsgi=wsgi)))
             # HEAD against GET, header for header
             pairs = [(L, f'bytes={a}-{b}', 3) for L in (0, 1, 5, 8) for a in ('', '0', '3', '9') for b in ('', '0', '4', '99')]
             pairs += [(L, h, 3) for L in (0, 5) for h in (None, '', 'bytes=5', 'bytes=', 'bytes=1-2,4-5', 'junk')]
@@ -659,7 +714,9 @@ class C17(Check):
             out.update(line=data['line'], recorded_impl=data.get('observed_impl'), recorded_model=data.get('observed_model'))
         self._setup()
         try:
-            if i.get('wsgi'):
+            if i.get('nondate'):
+                out['oracle'] = self._oracle_nondate(i['len'], i['method'], i['range'], i['ims'], i['maxread'], i['wsgi'])
+            elif i.get('wsgi'):
                 out['oracle'] = self._oracle_wsgi(i['len'], i['range'], i.get('ims'), i['maxread'], i.get('mtime'), i.get('tz'))
                 for m in ('GET', 'HEAD'):
                     sc, hd, ch = self._wsgi(i['len'], m, i['range'], i.get('ims'), i['maxread'], i.get('mtime'), i.get('tz'))
